@@ -135,13 +135,16 @@ NodeFailD(d, a) == IF AddrHolder(d, a) # NoId /\ AddrHolder(d, a) \in d.pool THE
 \* want[i] = the addresses host i may have (one, unless the cluster reported i twice)
 WantOf(rep) == [i \in RepIds(rep) |-> {rep[k].addr : k \in {j \in 1 .. Len(rep) : rep[j].id = i}}]
 
+\* rows the session has to ignore (used only to name the class of a violation)
+BadPairs(rows) == {<<rows[k].id, rows[k].addr>> : k \in {j \in 1 .. Len(rows) : rows[j].inv # "ok"}}
+FilteredPairs(rows, filt) == {<<rows[k].id, rows[k].addr>> : k \in {j \in 1 .. Len(rows) : rows[j].inv = "ok" /\ rows[j].addr \in filt}}
+
 GhostInit(rows, filt) ==
   LET rep == Reported(rows, filt) w == WantOf(rep)
   IN [want |-> w,
       att |-> [i \in DOMAIN w |-> IF Cardinality(w[i]) = 1 THEN "must" ELSE "free"],
       reach |-> AllAddrs, ctl |-> TRUE,
-      bad |-> {rows[k].id : k \in {j \in 1 .. Len(rows) : rows[j].inv # "ok"}} \ DOMAIN w,
-      filtered |-> {rows[k].id : k \in {j \in 1 .. Len(rows) : rows[j].addr \in filt}} \ DOMAIN w,
+      bad |-> BadPairs(rows), filtered |-> FilteredPairs(rows, filt),
       dup |-> HasDupIds(rep),
       moved |-> {}]
 
@@ -157,8 +160,7 @@ GhostRefresh(g, rows, filt) ==
                   \* reported twice before: the session may already be at this address
                   ELSE IF i \in DOMAIN g.want /\ w[i] \subseteq g.want[i] THEN "free"
                   ELSE IF TheOne(w[i]) \in g.reach THEN "must" ELSE "free"],
-       !.bad = {rows[k].id : k \in {j \in 1 .. Len(rows) : rows[j].inv # "ok"}} \ DOMAIN w,
-       !.filtered = {rows[k].id : k \in {j \in 1 .. Len(rows) : rows[j].addr \in filt}} \ DOMAIN w,
+       !.bad = BadPairs(rows), !.filtered = FilteredPairs(rows, filt),
        !.dup = HasDupIds(rep)]
 
 KnownAt(g, a) == {i \in DOMAIN g.want : a \in g.want[i]}
@@ -206,33 +208,37 @@ Viol(o, g) ==
       Must == {i \in W \cap H : g.att[i] = "must" /\ o.hosts[i] \in g.want[i]}
       MustNot == {i \in W \cap H : g.att[i] = "mustnot" /\ o.hosts[i] \in g.want[i]}
       Others(i) == {j \in H \ {i} : o.hosts[j] = o.hosts[i]}
-  IN
-  {"ring-missing-host" \o Sfx(g) : i \in W \ H}
-  \cup {IF i = ZeroId THEN "ring-invalid-peer-accepted-null-host-id"
-        ELSE IF i \in g.bad THEN "ring-invalid-peer-accepted"
-        ELSE IF i \in g.filtered THEN "ring-filtered-host-accepted"
-        ELSE "ring-stale-host" \o Sfx(g) : i \in H \ W}
-  \cup {"ring-stale-address" \o Sfx(g) : i \in {j \in H \cap W : o.hosts[j] \notin g.want[j]}}
-  \cup (IF o.byid # o.hosts THEN {"ring-byid-inconsistent"} ELSE {})
-  \cup {IF o.hosts[i] \in g.moved THEN "ring-byaddr-lost-after-id-replacement" ELSE "ring-byaddr-missing"
-          : i \in {j \in H : o.hosts[j] \notin DOMAIN o.byAddr}}
-  \cup {"ring-byaddr-stale" : a \in {b \in DOMAIN o.byAddr : o.byAddr[b] \notin H \/ (o.byAddr[b] \in H /\ o.hosts[o.byAddr[b]] # b)}}
-  \cup (IF Len(o.hlist) # Cardinality(H) \/ Range(o.hlist) # H THEN {"ring-hostlist"} ELSE {})
-  \cup {"pool-stale-host" : i \in DOMAIN o.poolA \ H}
-  \cup {"pool-stale-address" : i \in {j \in DOMAIN o.poolA \cap H : o.poolA[j] # o.hosts[j]}}
-  \cup {"pool-missing-host" : i \in Must \ DOMAIN o.poolA}
-  \cup {"policy-stale-host" : e \in {x \in o.polE : x.id \notin H}}
-  \cup {"policy-stale-address" : e \in {x \in o.polE : x.id \in H /\ x.addr # o.hosts[x.id]}}
-  \cup {IF o.hosts[i] \in g.moved THEN "policy-missing-host-after-id-replacement" ELSE "policy-missing-host"
-          : i \in {j \in Must : ~\E x \in o.polE : x.id = j}}
-  \cup {"connected-host-marked-down" : i \in Must \cap o.down}
-  \cup {"connected-host-not-served" : i \in {j \in Must : j \in DOMAIN o.poolA /\ j \notin o.down /\ (\E x \in o.polE : x.id = j)
-                                                   /\ o.served # {"unobserved"} /\ o.hosts[j] \notin o.served}}
-  \cup {"down-host-offered" : i \in {j \in MustNot : \E x \in o.polE : x.id = j}}
-  \cup {"down-host-served" : i \in {j \in MustNot : Others(j) = {} /\ o.hosts[j] \in o.served}}
-  \cup {"down-host-marked-up" : i \in MustNot \ o.down}
-  \cup (IF o.panic # "" THEN {"panic"} ELSE {})
-  \cup (IF o.refreshes > RefreshBound THEN {"refresh-storm"} ELSE {})
+      \* the ring does not hold the reported nodes
+      ringV ==
+        {"ring-missing-host" \o Sfx(g) : i \in W \ H}
+        \cup {IF i = ZeroId THEN "ring-invalid-peer-accepted-null-host-id"
+              ELSE IF g.dup THEN "ring-stale-host-dup-id-rows"
+              ELSE IF <<i, o.hosts[i]>> \in g.bad THEN "ring-invalid-peer-accepted"
+              ELSE IF <<i, o.hosts[i]>> \in g.filtered THEN "ring-filtered-host-accepted"
+              ELSE "ring-stale-host" \o Sfx(g) : i \in H \ W}
+        \cup {"ring-stale-address" \o Sfx(g) : i \in {j \in H \cap W : o.hosts[j] \notin g.want[j]}}
+      restV ==
+        (IF o.byid # o.hosts THEN {"ring-byid-inconsistent"} ELSE {})
+        \cup {IF o.hosts[i] \in g.moved THEN "ring-byaddr-lost-after-id-replacement" ELSE "ring-byaddr-missing"
+                : i \in {j \in H : o.hosts[j] \notin DOMAIN o.byAddr}}
+        \cup {"ring-byaddr-stale" : a \in {b \in DOMAIN o.byAddr : o.byAddr[b] \notin H \/ (o.byAddr[b] \in H /\ o.hosts[o.byAddr[b]] # b)}}
+        \cup (IF Len(o.hlist) # Cardinality(H) \/ Range(o.hlist) # H THEN {"ring-hostlist"} ELSE {})
+        \cup {"pool-stale-host" : i \in DOMAIN o.poolA \ H}
+        \cup {"pool-stale-address" : i \in {j \in DOMAIN o.poolA \cap H : o.poolA[j] # o.hosts[j]}}
+        \cup {"pool-missing-host" : i \in Must \ DOMAIN o.poolA}
+        \cup {"policy-stale-host" : e \in {x \in o.polE : x.id \notin H}}
+        \cup {"policy-stale-address" : e \in {x \in o.polE : x.id \in H /\ x.addr # o.hosts[x.id]}}
+        \cup {IF o.hosts[i] \in g.moved THEN "policy-missing-host-after-id-replacement" ELSE "policy-missing-host"
+                : i \in {j \in Must : ~\E x \in o.polE : x.id = j}}
+        \cup {"connected-host-marked-down" : i \in Must \cap o.down}
+        \cup {"connected-host-not-served" : i \in {j \in Must : j \in DOMAIN o.poolA /\ j \notin o.down /\ (\E x \in o.polE : x.id = j)
+                                                         /\ o.served # {"unobserved"} /\ o.hosts[j] \notin o.served}}
+        \cup {"down-host-offered" : i \in {j \in MustNot : \E x \in o.polE : x.id = j}}
+        \cup {"down-host-served" : i \in {j \in MustNot : Others(j) = {} /\ o.hosts[j] \in o.served}}
+        \cup {"down-host-marked-up" : i \in MustNot \ o.down}
+        \cup (IF o.refreshes > RefreshBound THEN {"refresh-storm"} ELSE {})
+  IN \* a panic is reported alone; a wrong ring content is reported without what follows from it
+     IF o.panic # "" THEN {"panic"} ELSE IF ringV # {} THEN ringV ELSE restV
 
 \* the observation a model state corresponds to
 ObsOf(dd, nref) ==
@@ -248,9 +254,13 @@ ObsOf(dd, nref) ==
 VARIABLES truth, g, d, nref
 vars == <<truth, g, d, nref>>
 
+\* bad / filtered / dup / moved only name the class of a violation (Trace_Cluster keeps them);
+\* the state machine does not carry them, which keeps its state space small
+Plain(gg) == [gg EXCEPT !.bad = {}, !.filtered = {}, !.dup = FALSE, !.moved = {}]
+
 InitWith(rows) ==
   /\ truth = rows
-  /\ g = GhostInit(rows, Filt)
+  /\ g = Plain(GhostInit(rows, Filt))
   /\ d = FreshSession(rows, Filt, AllAddrs)
   /\ nref = 0
 
@@ -266,7 +276,7 @@ DoRefreshG(gg, rows, filt) == LET g1 == GhostRefresh(gg, rows, filt) IN [g1 EXCE
 Refresh(rows, fail) ==
   /\ truth' = rows
   /\ IF RefreshOK(fail)
-       THEN /\ g' = DoRefreshG(g, rows, Filt)
+       THEN /\ g' = Plain(DoRefreshG(g, rows, Filt))
             /\ d' = ApplyRefresh(d, rows, Filt, g.reach)
        ELSE UNCHANGED <<g, d>>
   /\ nref' = IF g.ctl /\ fail # "local" THEN 1 ELSE 0
@@ -277,7 +287,7 @@ Events(rows, evs) ==
   /\ LET g1 == GhostStatuses(g, evs, StatusAddrs(evs))
          d1 == ApplyStatuses(d, evs, StatusAddrs(evs), g.reach)
          r == BatchNeedsRefresh(d, evs)
-     IN /\ g' = IF GhostNeedsRefresh(g, evs) \/ r THEN DoRefreshG(g1, rows, Filt) ELSE g1
+     IN /\ g' = IF GhostNeedsRefresh(g, evs) \/ r THEN Plain(DoRefreshG(g1, rows, Filt)) ELSE g1
         /\ d' = IF r THEN ApplyRefresh(d1, rows, Filt, g.reach) ELSE d1
         /\ nref' = IF r THEN 1 ELSE 0
 
@@ -295,7 +305,7 @@ NodeRecover(rows, a) ==
        THEN \* the control connection comes back: control node connected, ring refreshed
             LET g1 == GhostControlBack([g EXCEPT !.reach = @ \cup {a}])
                 d1 == StartFill(d, C0id, g.reach \cup {a})
-            IN /\ g' = DoRefreshG(g1, rows, Filt)
+            IN /\ g' = Plain(DoRefreshG(g1, rows, Filt))
                /\ d' = ApplyRefresh(d1, rows, Filt, g.reach \cup {a})
                /\ nref' = 1
        ELSE /\ g' = [g EXCEPT !.reach = @ \cup {a}]
@@ -306,7 +316,7 @@ NodeRecover(rows, a) ==
 ControlLost(rows) ==
   /\ g.ctl
   /\ truth' = rows
-  /\ g' = DoRefreshG(GhostControlBack(g), rows, Filt)
+  /\ g' = Plain(DoRefreshG(GhostControlBack(g), rows, Filt))
   /\ d' = ApplyRefresh(StartFill(d, C0id, g.reach), rows, Filt, g.reach)
   /\ nref' = 1
 
